@@ -55,7 +55,7 @@ seeded changes and which check catches which in §11.
   | U2 | `optimal_fit::wrap_optimal_fit` | partition by back-tracking; the cost closure equals the documented cost model; no index/overflow panic | C06, C03, C04 |
   | U3 | `core::skip_ansi_escape_sequence`, `display_width`, `strip_ansi_escape_sequences` | exact functional spec (`dw`), `<=` byte length, chunk lemmas, the stripped string is ESC-free-of-sequences; termination (ghost counter) | C10, C05, C13, C04 |
   | U4 | `line_ending::NonEmptyLines::next` | exact spec, every slice on a char boundary, terminates | C15, C04 |
-  | U5 | `columns::wrap_columns` | the complete layout of C20 relative to whatever `wrap` returns; no panic | C20, C04 |
+  | U5 | `columns::wrap_columns` | the complete layout of C20 relative to whatever `wrap` returns; no panic; theorem: for well-formed texts whose lines fit, every row is exactly gaps + columns + remainder wide | C20, C04 |
   | U6 | `core::Word::from`, `core::break_words` | lossless, spaces-only whitespace, cached width; dispatch is lossless / identity for narrow words | C11, C12, C01, C02 |
   | U8 | `indentation::indent` | equals the spec function of C19 | C19, C04 |
   | U9 | `indentation::dedent` | removes exactly the margin the statement defines | C18, C04 |
@@ -77,8 +77,8 @@ seeded changes and which check catches which in §11.
   | K3 | `Word::width()` (`usize as f64`) and f64 `+`, `>` | `a + b < 2^53` implies `a as f64 + b as f64 == (a + b) as f64`; `a <= b` implies `!(a as f64 > b as f64)`; `0 as f64 == 0.0`; 64-bit `usize` — the A16 axioms of U17, all `usize` operands (Kani, loop-free, bit-precise) | C05 |
 
 * **Genuine defects found and repaired** (five `fix:` commits in `/repo`, §5): F1 (C02), F2 (C08), F5 (C20/C04) were
-  convicted by Verus obligations on the pinned text *and* by BEC; F3 (C11) and F4 (C18) by BEC. Six further findings
-  (KF1–KF6) are recorded as open known findings with reasons (§5).
+  convicted by Verus obligations on the pinned text *and* by BEC; F3 (C11) and F4 (C18) by BEC. Seven further findings
+  (KF1–KF7) are recorded as open known findings with reasons (§5).
 * **What stays bounded.** Optimality proper in C03 (needs real arithmetic and total monotonicity), the relational
   statements that compare runs on *different* inputs through more than the paragraph structure (C13 end to end, C14, the round
   trip of C15/C16, agreement of `fill_inplace` with `wrap`) — C09's and C08's relational clauses are now theorems over
@@ -96,10 +96,10 @@ w("""## 2. Architecture
   check                  ./check <Cxx> [--tier quick|thorough] [--seed N] | --replay <file>     (exit 0 / 1 VIOLATION / 2 undecided)
   setup.sh               builds bec in both feature flavours, warms Verus up
   MANIFEST.json          generated by tools/mkmanifest.py from tools/props.py
-  known_findings.json    fixed: F1–F5 (five `fix:` commits in /repo); open: KF1–KF6
+  known_findings.json    fixed: F1–F5 (five `fix:` commits in /repo); open: KF1–KF7
   contracts/u*.vrs       side-cars, one per unit (table in §0)
   contracts/prelude/     shared pieces (`//@include`): Options / LineEnding extracted from /repo, ANSI spec (`skip_len`, `dw`, `strip`),
-                         UTF-8 position lemmas (`fresh.vrs`), ASCII-boundary lemmas, `lines()` byte model
+                         the chunk model of well-formed texts with the additivity of display width over them (`ansi_chunks.vrs`), UTF-8 position lemmas (`fresh.vrs`), ASCII-boundary lemmas, `lines()` byte model
   contracts/skel/        code-only skeletons (generated by `vx.py derive`; anchors for the merge only, never verified)
   tools/vx.py            lexer, extractor, rule rewriter, closure conversion, three-way annotation merge, Verus driver, obligation map
   tools/kx.py  kani/     Kani driver (scratch copy outside /repo and /verif) and harnesses K1, K2, K3
@@ -313,6 +313,14 @@ seeds the sampled inputs differ, nothing is recorded, and the class tag alone de
   between alphanumerics; teaching them about escape sequences is a feature, not a minimal repair (the Unicode separator works on
   the stripped text and never splits a sequence at a space). The input class was first pointed out by sub-agents (seeds w4_C17_A,
   w6_C02_A). Both findings share one class tag.
+
+* **KF7 (C20).** A wrapped line (or gap) that ends inside an unterminated escape sequence:
+  `wrap_columns("a\\x1b]0; b c d", 2, 12, "|", "|", "|") == ["|a\\x1b]0; b c d   |     |"]` — the line is 1 column wide, nothing protrudes, yet the
+  row is 2 columns wide instead of 12: the open sequence swallows the padding and the gaps that follow it. The layout sentence of C20 holds
+  (U5's postcondition, all inputs); its width corollary is proved for texts whose sequences are all terminated (`c20_equal_row_widths`) and
+  is false of the pinned code otherwise. Found when that theorem was written: its hypothesis `wf` is exactly what the bounded alphabet had
+  silently assumed, so the opener of an OSC sequence was added to it. Not repaired: no padding rule can fix a row whose cell leaves a
+  sequence open (the terminal swallows the padding too).
 
 ## 6. Applicability statement
 
